@@ -35,16 +35,25 @@ func tgCase(trace []string, stopped bool) string {
 	return fmt.Sprintf("mk_case %s [%s] 0 0 0 %s", tgCfg, strings.Join(trace, "; "), coqBool(stopped))
 }
 
-func runShutdown(c *Ctx, cases *[]string) {
+// runThreadgroupScripted comes first of all sections: a group that admits threads after Stop
+// makes the runtime panic in WaitGroup.Wait under concurrent load (which would take the harness
+// down before it can report), so the sections that put such load on a group are skipped when the
+// scripted runs have already produced the replay.
+func runThreadgroupScripted(c *Ctx, cases *[]string) {
 	for i := 0; i < c.Scale(60, 600) && !giveUp("threadgroup"); i++ {
 		tgScripted(c, c.R.U64(), cases)
 	}
+}
+
+func runShutdown(c *Ctx, cases *[]string) {
 	// (a group that lets threads in after Stop makes the runtime panic in WaitGroup.Wait under load:
 	// the scripted runs above report that with a replay, the load test is then skipped)
 	for i := 0; i < c.Scale(30, 300) && !giveUp("threadgroup-stress") && failedRuns["threadgroup"] == 0; i++ {
 		tgStress(c, c.R.U64())
 	}
-	tgRace(c, c.R.U64())
+	if failedRuns["threadgroup"] == 0 {
+		tgRace(c, c.R.U64())
+	}
 	for i := 0; i < c.Scale(16, 64) && !giveUp("rhp4-shutdown"); i++ {
 		rhp4Shutdown(c, c.R.U64(), i, cases)
 	}
